@@ -135,7 +135,10 @@ class Gen:
             self.features.add("enumuse")
             return r.choice(self.enums)
         if c < 0.91 and iv:
-            return "sizeof(%s)" % r.choice(iv) if r.random() < 0.6 else "sizeof(int)"
+            if self.stress and r.random() < 0.6:
+                self.features.add("sizeof-var")     # F35d
+                return "sizeof(%s)" % r.choice(iv)
+            return "sizeof(%s)" % r.choice(["int", "long", "char"])
         if c < 0.95 and self.cpp:
             return r.choice(["true", "false"])
         if iv:
@@ -208,7 +211,7 @@ class Gen:
             kind = "int" if ty == "int" else "num"
             line = "%s%s %s%s" % (pad, ty, v, init)
             new = [(v, kind)]
-            if r.random() < 0.2:
+            if self.stress and r.random() < 0.3:      # F35e
                 v2 = self.fresh("lv")
                 line += ", %s" % v2 + (" = %s" % self.atom(env, ind) if r.random() < 0.5 else "")
                 new.append((v2, kind))
@@ -540,23 +543,25 @@ def truth_of(text, js):
                 return loc[k]["offset"]
         return None
 
-    def walk(n, anc, func):
+    def walk(n, anc, func, dropped=False):
         k = n.get("kind")
         rng = n.get("range") or {}
         b = off(rng.get("begin"))
         e = off(rng.get("end"))
         if k in DECLKINDS and n.get("name") and not n.get("isImplicit") and off(n.get("loc")) is not None and b is not None:
             decls[n["id"]] = dict(kind=k, name=n["name"], off=off(n["loc"]), begin=b, prev=n.get("previousDecl"),
-                                  func=func, anc=list(anc))
+                                  func=func, anc=list(anc), dropped=dropped)
         if k == "DeclRefExpr" and n.get("referencedDecl") and e is not None:
             rd = n["referencedDecl"]
-            uses.append(dict(target=rd.get("id"), name=rd.get("name"), tkind=rd.get("kind"), off=e, begin=b, anc=list(anc), via="ref"))
+            uses.append(dict(target=rd.get("id"), name=rd.get("name"), tkind=rd.get("kind"), off=e, begin=b, anc=list(anc), via="ref", dropped=dropped))
         if k == "MemberExpr" and n.get("referencedMemberDecl") and e is not None:
-            uses.append(dict(target=n["referencedMemberDecl"], name=n.get("name"), tkind=None, off=e, begin=b, anc=list(anc), via="member"))
+            uses.append(dict(target=n["referencedMemberDecl"], name=n.get("name"), tkind=None, off=e, begin=b, anc=list(anc), via="member", dropped=dropped,
+                             nonodr=bool(n.get("nonOdrUseReason"))))
         anc2 = anc + [b] if b is not None else anc
         func2 = n["id"] if k in FUNKINDS + ("CXXConstructorDecl", "CXXDestructorDecl") else func
-        for c in n.get("inner", []):
-            walk(c, anc2, func2)
+        for j, c in enumerate(n.get("inner", [])):
+            # the importer turns a DeclStmt into its FIRST declarator only (`getChild(0)->createTokens`)
+            walk(c, anc2, func2, dropped or (k == "DeclStmt" and j > 0))
 
     walk(js, [], None)
     for u in uses:
@@ -573,9 +578,10 @@ def truth_of(text, js):
     out_d = {}
     for i, d in decls.items():
         out_d[i] = dict(kind=d["kind"], name=d["name"], off=d["off"], begin=lc(d["begin"]), prev=bool(d["prev"]),
-                        funcprev=bool(d["func"] and funcprev.get(d["func"])), anclines=sorted(set(lc(a)[0] for a in d["anc"])))
+                        funcprev=bool(d["func"] and funcprev.get(d["func"])), anclines=sorted(set(lc(a)[0] for a in d["anc"])),
+                        dropped=d["dropped"])
     out_u = [dict(target=u["target"], name=u["name"], tkind=u["tkind"], off=u["off"], begin=lc(u["begin"]) if u["begin"] is not None else None,
-                  via=u["via"], anclines=sorted(set(lc(a)[0] for a in u["anc"]))) for u in uses]
+                  via=u["via"], anclines=sorted(set(lc(a)[0] for a in u["anc"])), dropped=u["dropped"], nonodr=u.get("nonodr", False)) for u in uses]
     return dict(decls=out_d, uses=out_u)
 
 
@@ -711,10 +717,10 @@ def align(case, toks):
     tr = case["truth"]
     occ = {}
     for i, d in tr["decls"].items():
-        if ENTITY.match(d["name"] or ""):
+        if ENTITY.match(d["name"] or "") and not d["dropped"]:
             occ.setdefault(d["name"], []).append(dict(role="D", id=i, off=d["off"], d=d))
     for u in tr["uses"]:
-        if u["name"] and ENTITY.match(u["name"]) and u["target"] in tr["decls"]:
+        if u["name"] and ENTITY.match(u["name"]) and u["target"] in tr["decls"] and not u["dropped"] and not (u.get("nonodr") and u["via"] == "member"):
             occ.setdefault(u["name"], []).append(dict(role="U", id=u["target"], off=u["off"], u=u))
     bystr = {}
     for t in toks:
@@ -772,6 +778,11 @@ def link_problems(case, toks):
                 stats["var_uses"] += 1
                 td = tok_of_decl.get(o["id"])
                 if td is None:
+                    if d["dropped"]:
+                        key = "declarator-dropped" if (t["varDef"] is None and t["varId"] == 0) else "use-wrong-decl"
+                        bad.append((key, "%s: its declaration (%d:%d) is not the first declarator of its statement and was not imported; "
+                                    "imported: varId=%d variable()->nameToken()=%r" % (where, d["begin"][0], d["begin"][1], t["varId"], t["varDef"]),
+                                    dict(tok=t["idx"])))
                     continue
                 if t["varDef"] == td["idx"] and t["varId"] == td["varId"] and t["varId"] != 0:
                     stats["var_uses_linked"] += 1
@@ -811,3 +822,427 @@ def in_sizeof(toks, i):
             return True
         j -= 1
     return False
+
+
+# ---------------------------------------------------------------------------------------------------------
+# unit-op generators
+# ---------------------------------------------------------------------------------------------------------
+ADDR = lambda r: "0x%x" % r.randrange(0x1000, 0xffffffffff)
+
+
+def gen_loc_token(r, weird=0.0):
+    c = r.random()
+    if c < weird:
+        return r.choice(["<col:x>", "<line:>", "<line:3>", "<col:>", "<C:\\a.c:1:2>", "<C:x>", "<a.c>", "<a.c:7>", "<:3:4>", "<col:007>",
+                         "<line:+3:4>", "<col:-2>", "<col:99999999999>", "<line:5:1, col:>", "<invalid sloc>", "<<invalid sloc>>", "<>",
+                         "<a b.c:3:4>", "<line:2:3, col:4, col:5>", "<col: 3>"])
+    n = lambda: str(r.choice([1, 2, 3, 7, 12, 40, 118, 2000]))
+    if c < 0.40:
+        return "<col:%s>" % n() if r.random() < 0.5 else "<col:%s, col:%s>" % (n(), n())
+    if c < 0.55:
+        return "<col:%s, line:%s:%s>" % (n(), n(), n())
+    if c < 0.80:
+        x = r.random()
+        if x < 0.4:
+            return "<line:%s:%s, col:%s>" % (n(), n(), n())
+        if x < 0.7:
+            return "<line:%s:%s, line:%s:%s>" % (n(), n(), n(), n())
+        return "<line:%s:%s>" % (n(), n())
+    if c < 0.92:
+        f = r.choice(["a.c", "t.cpp", "dir/x.h", "./y.h", "/usr/include/stdio.h"])
+        return "<%s:%s:%s, %s>" % (f, n(), n(), r.choice(["col:" + n(), "line:%s:%s" % (n(), n())]))
+    return r.choice(["<<invalid sloc>>", "<>", "<<invalid sloc>, col:3>"])
+
+
+def gen_loc_tree(r):
+    """preorder list of (depth, ext); the root has depth 0"""
+    weird = 0.15 if r.random() < 0.25 else 0.0
+    items = []
+    depth = 0
+    for i in range(r.randrange(2, 14)):
+        if i == 0:
+            depth = 0
+        else:
+            depth = r.randrange(1, min(depth + 1, 6) + 1)
+        head = ADDR(r)
+        x = r.random()
+        if x < 0.08:
+            ext = " %s prev %s %s col:3 f 'int ()'" % (head, ADDR(r), gen_loc_token(r, weird))   # the range is not mExtTokens[1]
+        elif x < 0.12:
+            ext = " %s" % head
+        elif x < 0.16:
+            ext = " %s 'int' lvalue" % head
+        else:
+            ext = " %s %s %s" % (head, gen_loc_token(r, weird), r.choice(["'int'", "col:5 used x 'int'", "line:4:2 f 'void ()'", ""]))
+        items.append((depth, ext))
+    return items
+
+
+def loc_nontrivial(items):
+    # a relative column after a sibling subtree changed the line
+    seen_line_change = False
+    for d, e in items[1:]:
+        if "<line:" in e:
+            seen_line_change = True
+        elif "<col:" in e and seen_line_change:
+            return True
+    return False
+
+
+def gen_split_line(r):
+    c = r.random()
+    if c < 0.55:
+        # clang-shaped
+        fs = [ADDR(r)]
+        if r.random() < 0.2:
+            fs += [r.choice(["prev", "parent"]), ADDR(r)]
+        fs.append(gen_loc_token(r, 0.02))
+        for _ in range(r.randrange(0, 7)):
+            x = r.random()
+            if x < 0.25:
+                t = r.choice(["int", "int (*)(int)", "struct S", "char *", "int[3]", "void (int, char)", "std::vector<int>", "unsigned long", "const T &"])
+                fs.append("'%s'" % t if r.random() < 0.6 else "'%s':'%s'" % (t, r.choice(["int", t, "struct S", "T<a, b>"])))
+            elif x < 0.45:
+                fs.append(r.choice(["lvalue", "used", "cinit", "callinit", "implicit", "referenced", "definition", "static", "extern", "Var", "ParmVar",
+                                    "Function", "prefix", "postfix", "struct", "class", "col:7", "line:3:5", "non_odr_use_unevaluated"]))
+            elif x < 0.6:
+                fs.append(ADDR(r))
+            elif x < 0.7:
+                fs.append(r.choice(["x", "foo", "_bar9", "operator=", "operator<<", "~C", "ns::f", "a::b::c", "vector<int>", "map<int, int>", "S<T<int>>"]))
+            elif x < 0.8:
+                fs.append(r.choice(["'+'", "'<<'", "'->'", "'x'", "'='", "','"]))
+            elif x < 0.88:
+                fs.append(r.choice(["\"abc\"", "\"a b  c\"", "\"\"", "\"a\\\"b\"", "\"it's\""]))
+            elif x < 0.94:
+                fs.append(r.choice(["42", "0", "3.14", "1e10", "<LValueToRValue>", "<NoOp>", "<ArrayToPointerDecay>"]))
+            else:
+                fs.append(r.choice(["(", ")", "*", "(CXXTemporary", "0x55)"]))
+        return " " + (" " if r.random() < 0.9 else "  ").join(fs)
+    alphabet = " '\"<>:*()_ab0x,-" if c < 0.9 else "".join(chr(i) for i in range(1, 128))
+    return "".join(r.choice(alphabet) for _ in range(r.randrange(0, 40)))
+
+
+def gen_data_ops(r):
+    n = r.randrange(2, 14)
+    addrs = [ADDR(r) for _ in range(r.randrange(1, 6))]
+    evs = []
+    free = list(range(n))
+    r.shuffle(free)
+    wild = r.random() < 0.3            # duplicate addresses / reused tokens
+    used_addr = set()
+    declared_tok = []
+    while free:
+        t = free.pop() if not (wild and r.random() < 0.15 and evs) else r.randrange(n)
+        c = r.random()
+        a = r.choice(addrs)
+        if c < 0.5:
+            evs.append(("r", a, t))
+        else:
+            if a in used_addr and not wild:
+                cand = [x for x in addrs if x not in used_addr]
+                if not cand:
+                    evs.append(("r", a, t))
+                    continue
+                a = r.choice(cand)
+            used_addr.add(a)
+            k = r.choice(["v", "v", "v", "f", "e"])
+            evs.append((k, a, t))
+            if k == "v":
+                declared_tok.append(t)
+        if r.random() < 0.08:
+            evs.append(("s", r.choice(addrs), 0))
+        if declared_tok and r.random() < 0.1:
+            evs.append(("x", addrs[0], r.choice(declared_tok)))
+    return "data %d " % n + " ".join("%s %s %d" % (k, core.hx(a), t) for k, a, t in evs), evs
+
+
+def data_nontrivial(evs):
+    seen = set()
+    for k, a, t in evs:
+        if k == "r" and a not in seen and any(k2 in "vfe" and a2 == a for k2, a2, _ in evs):
+            return True
+        if k in "vfe":
+            seen.add(a)
+    return False
+
+
+def ext_lines_of(dump):
+    """the `ext` strings parseClangAstDump hands to splitString"""
+    out = []
+    for line in dump.split("\n"):
+        p1 = line.find("-")
+        if p1 < 0:
+            continue
+        p2 = line.find(" ", p1)
+        if p2 < p1 + 4:
+            continue
+        out.append(line[p2:])
+    return out
+
+
+def mutate_dump(r, dump):
+    lines = dump.split("\n")
+    k = r.random()
+    body = [i for i, l in enumerate(lines) if "-" in l and "sloc" not in l]
+    if not body:
+        return dump
+    i = r.choice(body)
+    if k < 0.3:
+        lines[i] = re.sub(r"<col:\d+", "<col:x", lines[i], 1)
+    elif k < 0.5:
+        lines[i] = re.sub(r"<(line|col):[^>]*>", "<bogus>", lines[i], 1)
+    elif k < 0.7:
+        lines = lines[:i]                                   # truncated output
+    elif k < 0.85:
+        lines[i] = re.sub(r"<(line|col):[^>]*>", "<>", lines[i], 1)
+    else:
+        lines[i] = re.sub(r" '[^']*'", "", lines[i], 1)      # a missing type field
+    return "\n".join(lines)
+
+
+# ---------------------------------------------------------------------------------------------------------
+# the check
+# ---------------------------------------------------------------------------------------------------------
+KNOWN_KEYS = ("loc-line-inherited", "param-of-redeclared-function", "use-inside-sizeof", "declarator-dropped", "member-nonodr-flag")
+
+
+def load_witnesses():
+    p = os.path.join(core.VERIF, "corpus", "C35", "witnesses.json")
+    return json.load(open(p))["witnesses"] if os.path.exists(p) else []
+
+
+def dump_op(c, mode):
+    return "dump %s %s %s %s" % (c["lang"], core.hx(src_name(c["lang"])), core.hx(c["dump"]), mode)
+
+
+def evaluate(c, line):
+    """P_impl on one harness `dump` line.  Returns (violations [(key, text)], stats, note)"""
+    if line.startswith("CRASH"):
+        return [("crash", "the importer crashed: " + line)], {}, "crash"
+    if line.startswith("exception"):
+        return [("exception", "the importer left with an exception that is not an InternalError: " + line)], {}, "exception"
+    toks = parse_dump_line(line)
+    if toks is None:
+        return [], {}, line.split(" ")[0] + " " + " ".join(line.split(" ")[1:2])       # InternalError: allowed outcome
+    viol = [(k, t) for k, t in inv_problems(toks)]
+    bad, stats, unaligned = link_problems(c, toks)
+    viol += [(k, t) for k, t, _ in bad if k != "loc-col"]
+    stats["col_mismatch"] = sum(1 for k, _, _ in bad if k == "loc-col")
+    # MemberExpr printed with a trailing flag: the importer takes the address for the member name (token "0x…") and links nothing
+    nonodr = [u for u in c["truth"]["uses"] if u.get("nonodr") and u["via"] == "member"]
+    if nonodr and any(re.match(r"^0x[0-9a-f]+$", t["str"]) for t in toks):
+        viol.append(("member-nonodr-flag", "member use inside an unevaluated operand (source %d:%d): the token is spelt with the address and is unlinked" %
+                     linecol(c["text"], nonodr[0]["off"])))
+    for name, want, got in unaligned:
+        if any(u["name"] == name for u in nonodr):
+            continue
+        viol.append(("occurrence-count", "entity %r: %d source occurrences, %d imported tokens" % (name, want, got)))
+    return viol, stats, "ok"
+
+
+def run(ctx, res):
+    rng = ctx.rng
+    thorough = ctx.tier == "thorough"
+    if THEOREMS:
+        core.prove(ctx, res, MODULES, THEOREMS)
+    drv = ctx.driver("drv_c35")
+    exe = ctx.harness("c35")
+
+    # ---- known-finding witnesses first; they also tell which behaviour of `setTypes` the tree has ----------------------------
+    wit = load_witnesses()
+    wcases = [dict(lang=w["lang"], text=w["text"], layout="witness", stress=True, features=[], wkey=w["key"], name=w["name"]) for w in wit]
+    clang_all(wcases)
+    wout = run_robust(exe, [dump_op(c, "cur") for c in wcases]) if wcases else []
+    seen_keys = {}
+    for c, o in zip(wcases, wout):
+        viol, stats, note = evaluate(c, o)
+        hit = [v for v in viol if v[0] == c["wkey"]]
+        res.case("witness|" + c["name"], True, dict(tie="witness", name=c["name"], key=c["wkey"], reproduces=bool(hit)))
+        if hit:
+            seen_keys[c["wkey"]] = True
+            res.violation("%s: %s" % (c["name"], hit[0][1]), dict(kind="program", lang=c["lang"], text=c["text"], key=c["wkey"], witness=c["name"]),
+                          concrete=True, key=c["wkey"])
+        for k, t in viol:
+            if k != c["wkey"] and k not in KNOWN_KEYS:
+                res.violation("witness %s: %s" % (c["name"], t), dict(kind="program", lang=c["lang"], text=c["text"], key=k), concrete=True, key=k)
+    mode = "cur" if (seen_keys.get("use-inside-sizeof") or not any(w["key"] == "use-inside-sizeof" for w in wit)) else "sf"
+    res.extra["setTypes_behaviour"] = "current (clears links inside sizeof)" if mode == "cur" else "repaired"
+
+    # ---- programs ------------------------------------------------------------------------------------------------------
+    plan = [("c", "safe", False, 40 if thorough else 8), ("c", "free", False, 40 if thorough else 6), ("cpp", "safe", False, 40 if thorough else 7),
+            ("cpp", "free", False, 40 if thorough else 6), ("c", "free", True, 30 if thorough else 4), ("cpp", "free", True, 30 if thorough else 4)]
+    cases = []
+    for lang, layout, stress, n in plan:
+        for _ in range(n):
+            cases.append(gen_program(rng, lang == "cpp", layout, stress))
+    clang_all(cases, 8)
+    bad_clang = [c for c in cases if not c.get("clang_ok")]
+    res.oblig("generator:programs-accepted-by-clang", not bad_clang, "machinery",
+              "" if not bad_clang else "%d generated programs were rejected by clang-14; first:\n%s" % (len(bad_clang), bad_clang[0]["text"][:600]))
+    cases = [c for c in cases if c.get("clang_ok")]
+    res.extra["clang_runs_cached"] = sum(1 for c in cases if c.get("cached"))
+    for c in cases:
+        for u in c["truth"]["uses"]:
+            u.setdefault("nonodr", False)
+
+    # ---- C-import ------------------------------------------------------------------------------------------------------
+    ops = [dump_op(c, mode) for c in cases]
+    muts = []
+    for c in rng.sample(cases, min(len(cases), 40 if thorough else 8)):
+        m = dict(c)
+        m["dump"] = mutate_dump(rng, c["dump"])
+        m["mut"] = True
+        muts.append(m)
+    ops_m = [dump_op(c, mode) for c in muts]
+    impl = run_robust(exe, ops + ops_m)
+    rc, model, err = core.run_lines(drv, [], ops + ops_m, timeout=1800)
+    if len(model) != len(ops) + len(ops_m):
+        res.oblig("correspondence:import", False, "correspondence", "driver returned %d lines for %d ops: %s" % (len(model), len(ops) + len(ops_m), err[-300:]))
+    else:
+        cmp_ops, cmp_i, cmp_m = [], [], []
+        for k, (op, i, m) in enumerate(zip(ops + ops_m, impl, model)):
+            c = (cases + muts)[k]
+            tag = "%s/%s%s%s" % (c["lang"], c["layout"], "/stress" if c["stress"] else "", "/mutated" if c.get("mut") else "")
+            if m.startswith("unsupported"):
+                res.count("import-outside-model:" + m.split(" ", 1)[1][:40])
+                continue
+            if m.startswith("ub "):
+                # the model says the C++ indexes out of range / dereferences null here: any behaviour of the implementation is consistent
+                res.count("import-model-predicts-ub:" + m[3:40])
+                continue
+            res.count("import:" + tag)
+            res.count("import-outcome:" + " ".join(i.split(" ")[:2]) if not i.startswith("ok") else "import-outcome:ok")
+            cmp_ops.append("dump %s #%d %s" % (tag, k, hashlib.sha1(op.encode()).hexdigest()[:12]))
+            cmp_i.append(i)
+            cmp_m.append(m)
+        nt = {o: (i.startswith("ok") and ":" in i) for o, i in zip(cmp_ops, cmp_i)}
+        mism = core.correspond(ctx, res, "import", cmp_ops, cmp_i, cmp_m, nontrivial=lambda op, out: nt.get(op, True))
+        if mism:
+            k = int(cmp_ops[mism[0]].split("#")[1].split(" ")[0])
+            c = (cases + muts)[k]
+            a, b = cmp_i[mism[0]].split(" "), cmp_m[mism[0]].split(" ")
+            d = next((j for j, (x, y) in enumerate(zip(a, b)) if x != y), min(len(a), len(b)))
+            res.extra["import_mismatch"] = dict(lang=c["lang"], text=c["text"], mutated=bool(c.get("mut")), field=d, impl=a[max(0, d - 2):d + 2], model=b[max(0, d - 2):d + 2])
+
+    # ---- P_impl on the real importer -------------------------------------------------------------------------------------
+    inv_ops, inv_cases = [], []
+    agg = {}
+    for c, o in zip(cases, impl[:len(cases)]):
+        viol, stats, note = evaluate(c, o)
+        for k, v in stats.items():
+            agg[k] = agg.get(k, 0) + v
+        res.count("p_impl-outcome:" + note)
+        fam = "%s/%s%s" % (c["lang"], c["layout"], "/stress" if c["stress"] else "")
+        for f in c["features"]:
+            res.count("feature:" + f)
+        seen = set()
+        for k, t in viol:
+            if k in seen:
+                continue
+            seen.add(k)
+            res.count("p_impl-violation-class:" + k)
+            res.violation("%s program: %s" % (fam, t), dict(kind="program", lang=c["lang"], text=c["text"], key=k, family=fam), concrete=True, key=k)
+        toks = parse_dump_line(o)
+        if toks is not None:
+            inv_ops.append("inv %d %s" % (len(toks), " ".join("%s,%s,%s,%s" % tuple("-" if t[x] is None else t[x] for x in ("parent", "op1", "op2", "link")) +
+                                                                    (",%d" % (ord(t["str"][0]) if t["str"] else 0)) for t in toks)))
+            inv_cases.append(c)
+    res.extra["p_impl"] = agg
+    # (1) once more, by the Lean checker whose soundness is a theorem
+    if inv_ops:
+        rc, io, err = core.run_lines(drv, [], inv_ops, timeout=900)
+        badinv = [(c, o) for c, o in zip(inv_cases, io) if o != "inv=1 links=1"]
+        res.oblig("p_impl:invariant-checker(lean)", len(io) == len(inv_ops) and not badinv, "p_impl",
+                  "" if not badinv else "the verified checker rejects the imported token list: %s" % badinv[0][1])
+        for c, o in badinv[:3]:
+            res.violation("verified checker: %s" % o, dict(kind="program", lang=c["lang"], text=c["text"], key="inv-lean"), concrete=True, key="inv-lean")
+
+    # ---- unit correspondences ------------------------------------------------------------------------------------------------
+    lines = []
+    for c in cases + wcases:
+        lines += ext_lines_of(c["dump"])
+    lines = sorted(set(lines))
+    rng.shuffle(lines)
+    lines = lines[:6000 if thorough else 1500] + [gen_split_line(rng) for _ in range(6000 if thorough else 1500)]
+    sops = ["split " + core.hx(l) for l in lines]
+    si = run_robust(exe, sops)
+    rc, sm, err = core.run_lines(drv, [], sops)
+    grouped = {op: (" " in l.strip() and any(ch in l for ch in "<'\"")) for op, l in zip(sops, lines)}
+    core.correspond(ctx, res, "split", sops, si, sm, nontrivial=lambda op, out: grouped.get(op, False))
+
+    dops, devs = [], {}
+    for _ in range(2000 if thorough else 400):
+        op, evs = gen_data_ops(rng)
+        dops.append(op)
+        devs[op] = data_nontrivial(evs)
+    di = run_robust(exe, dops)
+    rc, dm, err = core.run_lines(drv, [], dops)
+    core.correspond(ctx, res, "data", dops, di, dm, nontrivial=lambda op, out: devs.get(op, False))
+
+    lops, lnt = [], {}
+    for _ in range(2000 if thorough else 400):
+        items = gen_loc_tree(rng)
+        op = "loc " + ",".join("%d:%s" % (d, core.hx(e)) for d, e in items)
+        lops.append(op)
+        lnt[op] = loc_nontrivial(items)
+    li = run_robust(exe, lops)
+    rc, lm, err = core.run_lines(drv, [], lops)
+    core.correspond(ctx, res, "loc", lops, li, lm, nontrivial=lambda op, out: lnt.get(op, False))
+
+    if thorough:
+        cli(ctx, res, rng, cases)
+
+
+def cli(ctx, res, rng, cases):
+    """`cppcheck --clang=clang-14 --dump` on generated programs: no crash, the dump satisfies C14's dump invariants"""
+    from . import c14_dump
+    import importlib.util
+    spec = importlib.util.spec_from_file_location("cppcheckdata", os.path.join(core.REPO, "addons", "cppcheckdata.py"))
+    cppcheckdata = importlib.util.module_from_spec(spec)
+    try:
+        spec.loader.exec_module(cppcheckdata)
+    except Exception:
+        cppcheckdata = None
+    n_ok = 0
+    for c in rng.sample(cases, min(len(cases), 16)):
+        wd = os.path.join(ctx.tmp, "cli%d" % rng.getrandbits(30))
+        os.makedirs(wd)
+        fn = src_name(c["lang"])
+        open(os.path.join(wd, fn), "w").write(c["text"])
+        rc, out, err = core.sh([ctx.cppcheck, "--clang=" + CLANG, "--dump", "-q", fn], cwd=wd, timeout=300)
+        res.count("cli-exit:%d" % rc)
+        if rc < 0 or rc >= 128:
+            res.violation("cppcheck --clang --dump terminated abnormally (rc=%d): %s" % (rc, err[-300:]),
+                          dict(kind="program", lang=c["lang"], text=c["text"], key="cli-crash"), concrete=True, key="cli-crash")
+            continue
+        dp = os.path.join(wd, fn + ".dump")
+        if not os.path.exists(dp):
+            res.count("cli-no-dump")
+            continue
+        stats, problems = c14_dump.check_dump(dp, cppcheckdata)
+        n_ok += 1
+        for key, text in problems[:5]:
+            res.count("cli-dump-problem:" + key)
+            res.violation("--clang --dump output: %s: %s" % (key, text), dict(kind="program", lang=c["lang"], text=c["text"], key="cli-dump:" + key),
+                          concrete=True, key="cli-dump:" + key)
+    res.oblig("cli:dumps-produced", n_ok > 0, "p_impl", "no dump file was produced by cppcheck --clang=%s --dump" % CLANG)
+    res.extra["cli_dumps_checked"] = n_ok
+
+
+def replay(ctx, res, rp):
+    """re-run one stored program: prints the violations it still shows; returns 1 if the stored class still occurs"""
+    exe = ctx.harness("c35")
+    c = dict(lang=rp.get("lang", "c"), text=rp["text"], layout="replay", stress=True, features=[])
+    clang_case(c)
+    if not c.get("clang_ok"):
+        print("replay: clang rejects the program")
+        return 1
+    for u in c["truth"]["uses"]:
+        u.setdefault("nonodr", False)
+    o = run_robust(exe, [dump_op(c, "cur")])[0]
+    viol, stats, note = evaluate(c, o)
+    hit = [v for v in viol if v[0] == rp.get("key")]
+    for k, t in viol:
+        print("replay: %s: %s" % (k, t))
+    print("replay: outcome=%s, stored class %r %s" % (note, rp.get("key"), "still occurs" if hit else "no longer occurs"))
+    return 1 if hit else 0
